@@ -234,93 +234,178 @@ class LPFMDisagree(Exception):
     pass
 
 
-def _simplex_min(T, basis, ncols, allowed, eps=1e-9):
-    """Bland's rule on a dense tableau T (m rows + cost row last; last column = rhs).  Minimises.
-    Returns 'opt' | 'unbounded'."""
+def _simplex_min(T, basis, ncols, allowed):
+    """Bland's rule on a dense tableau T of Fractions (m rows + cost row last; last column = rhs).  Minimises.
+    Returns 'opt' | 'unbounded'.  Exact arithmetic: no tolerances."""
     m = len(T) - 1
     for _ in range(20000):
         cost = T[m]
         e = -1
         for j in range(ncols):
-            if allowed[j] and cost[j] < -eps: e = j; break
+            if allowed[j] and cost[j] < 0: e = j; break
         if e < 0: return 'opt'
         lr = -1; best = None
         for i in range(m):
             a = T[i][e]
-            if a > eps:
+            if a > 0:
                 ratio = T[i][-1] / a
-                if best is None or ratio < best - 1e-12 or (abs(ratio - best) <= 1e-12 and basis[i] < basis[lr]):
+                if best is None or ratio < best or (ratio == best and basis[i] < basis[lr]):
                     best = ratio; lr = i
         if lr < 0: return 'unbounded'
         pv = T[lr][e]
-        T[lr] = [x / pv for x in T[lr]]
+        T[lr] = [x / pv if x else x for x in T[lr]]
+        row = T[lr]
         for i in range(m + 1):
             if i != lr:
                 f = T[i][e]
-                if f != 0.0:
-                    row = T[lr]; T[i] = [x - f * y for x, y in zip(T[i], row)]
+                if f:
+                    T[i] = [x - f * y if y else x for x, y in zip(T[i], row)]
         basis[lr] = e
     raise Undecided('simplex iteration limit')
 
 
 def lp_feasible(rows, elim, obj=None):
-    """Same contract as fm_feasible, by a two-phase dense simplex (Bland's rule).
-    rows: (coefs, lb, ub) over the free variables `elim`; obj=(coefs, const): returns (feasible, min, max)."""
-    vs = sorted(set(elim)); idx = {v: k for k, v in enumerate(vs)}; n = len(vs)
-    ineq = []          # (dense a, b): a.x <= b   (rows relaxed by a relative 1e-9)
+    """Same contract as fm_feasible, decided by an exact rational two-phase simplex.
+    Exact rows first; only if they have no solution, every right-hand side is relaxed by TOL (noise in the data)."""
+    r = _lp_feasible(rows, elim, obj, 0.0)
+    return r if r[0] else _lp_feasible(rows, elim, obj, TOL)
+
+
+def _lp_feasible(rows, elim, obj, tol):
+    """Every float converts exactly to a Fraction, so there is no rounding (a floating-point tableau gave wrong
+    verdicts on rows mixing coefficients 1 and 1e6).  Steps: (1) equality rows define a variable: substitute it
+    (exact Gaussian step); (2) single-variable rows become bounds, variables are shifted to x' >= 0;
+    (3) two-phase dense simplex with Bland's rule.  The objective is the variable z of the row oc.x - z = -o0."""
+    from fractions import Fraction as Fr
+    ZV = '__z'
+    FT = Fr(tol)
+    fin = lambda b: b not in (INF, -INF)
+    work = []
     for row in rows:
-        co, lb, ub = row[0], row[1], row[2]
-        a = [0.0] * n
+        co = {v: Fr(c) for v, c in row[0].items() if c != 0}
+        work.append([co, Fr(row[1]) if fin(row[1]) else None, Fr(row[2]) if fin(row[2]) else None])
+    free = set(elim)
+    if obj is not None:
+        oc, o0 = obj
+        co = {v: Fr(c) for v, c in oc.items() if c != 0}; co[ZV] = Fr(-1)
+        work.append([co, Fr(-o0), Fr(-o0)]); free.add(ZV)
+    for co, lb, ub in work:
+        for v in co:
+            if v not in free: raise Undecided('LP residual variables')
+    # (1) Gaussian step (only for exact equalities; with tol > 0 an equality is a range and stays a row)
+    if tol == 0.0:
+        progress = True
+        while progress:
+            progress = False
+            for ri, (co, lb, ub) in enumerate(work):
+                if lb is None or lb != ub: continue
+                cand = sorted(v for v in co if v != ZV)
+                if not cand: continue
+                v = cand[0]; c = co[v]
+                del work[ri]
+                for q in work:
+                    cq = q[0].get(v)
+                    if not cq: continue
+                    f = cq / c
+                    for k, val in co.items():
+                        if k == v: continue
+                        nv = q[0].get(k, 0) - f * val
+                        if nv: q[0][k] = nv
+                        else: q[0].pop(k, None)
+                    del q[0][v]
+                    if q[1] is not None: q[1] -= f * lb
+                    if q[2] is not None: q[2] -= f * lb
+                free.discard(v)
+                progress = True
+                break
+    # (2) bounds
+    L = {}; U = {}; gen = []
+    for co, lb, ub in work:
+        if not co:
+            if (ub is not None and ub + FT < 0) or (lb is not None and lb - FT > 0): return (False, None, None)
+            continue
+        if len(co) == 1:
+            (v, c), = co.items()
+            lo_ = None if (lb if c > 0 else ub) is None else (lb if c > 0 else ub) / c
+            hi_ = None if (ub if c > 0 else lb) is None else (ub if c > 0 else lb) / c
+            if lo_ is not None and (v not in L or lo_ > L[v]): L[v] = lo_
+            if hi_ is not None and (v not in U or hi_ < U[v]): U[v] = hi_
+        else: gen.append((co, lb, ub))
+    for v in L:
+        if v in U and L[v] - FT > U[v] + FT: return (False, None, None)
+    vs = sorted(free, key=lambda v: (isinstance(v, str), v)); n = len(vs)
+    # column layout: per variable one column x' (x = L + x' or x = U - x') or two (x = u - w)
+    cols = {}; ncol = 0
+    for v in vs:
+        if v in L: cols[v] = ('lo', ncol); ncol += 1
+        elif v in U: cols[v] = ('up', ncol); ncol += 1
+        else: cols[v] = ('free', ncol); ncol += 2
+    ineq = []                                   # (dense a over the columns, b): a.x' <= b
+    def add(co, b):
+        a = [Fr(0)] * ncol
         for v, c in co.items():
-            if v not in idx: raise Undecided('LP residual variables')
-            a[idx[v]] += c
-        if ub < INF: ineq.append((a, ub + 1e-9 * (1 + abs(ub))))
-        if lb > -INF: ineq.append(([-x for x in a], -lb + 1e-9 * (1 + abs(lb))))
+            kind, j = cols[v]
+            if kind == 'lo': a[j] += c; b -= c * (L[v] - FT)
+            elif kind == 'up': a[j] -= c; b -= c * (U[v] + FT)
+            else: a[j] += c; a[j + 1] -= c
+        ineq.append((a, b))
+    for co, lb, ub in gen:
+        if ub is not None: add(co, ub + FT)
+        if lb is not None: add({v: -c for v, c in co.items()}, -lb + FT)
+    for v in vs:                                # the other bound of a shifted variable
+        kind, j = cols[v]
+        if kind == 'lo' and v in U:
+            a = [Fr(0)] * ncol; a[j] = Fr(1); ineq.append((a, (U[v] + FT) - (L[v] - FT)))
     m = len(ineq)
-    # columns: u_0..u_{n-1}, w_0..w_{n-1} (x = u - w), slacks s_0..s_{m-1}, artificials t_0..t_{m-1}
-    ncols = 2 * n + 2 * m
-    T = []; basis = []
+    # (3) tableau: structural columns, slacks, artificials only for rows with negative right-hand side
+    nart = sum(1 for a, b in ineq if b < 0)
+    width = ncol + m + nart
+    T = []; basis = []; k = 0
     for i, (a, b) in enumerate(ineq):
-        r = list(a) + [-x for x in a] + [0.0] * (2 * m) + [b]
-        r[2 * n + i] = 1.0
-        if b < 0: r = [-x for x in r]
-        r[2 * n + m + i] = 1.0
-        T.append(r); basis.append(2 * n + m + i)
-    cost = [0.0] * (ncols + 1)
-    for i in range(m):
-        for j in range(ncols + 1):
-            if j < 2 * n + m or j == ncols: cost[j] -= T[i][j]
-    T.append(cost)
-    allowed = [True] * ncols
-    _simplex_min(T, basis, ncols, allowed)
-    if -T[m][-1] > 1e-7: return (False, None, None)
-    for j in range(2 * n + m, ncols): allowed[j] = False
-    for i in range(m):                       # drive artificials out of the basis where possible
-        if basis[i] >= 2 * n + m:
-            for j in range(2 * n + m):
-                if abs(T[i][j]) > 1e-9:
-                    pv = T[i][j]; T[i] = [x / pv for x in T[i]]
-                    for i2 in range(m + 1):
-                        if i2 != i and T[i2][j] != 0.0:
-                            f = T[i2][j]; T[i2] = [x - f * y for x, y in zip(T[i2], T[i])]
-                    basis[i] = j; break
+        r = list(a) + [Fr(0)] * (m + nart) + [b]
+        r[ncol + i] = Fr(1)
+        if b < 0:
+            r = [-x for x in r]; r[ncol + m + k] = Fr(1); basis.append(ncol + m + k); k += 1
+        else: basis.append(ncol + i)
+        T.append(r)
+    allowed = [True] * width
+    if nart:
+        cost = [Fr(0)] * (width + 1)
+        for i in range(m):
+            if basis[i] >= ncol + m:
+                for j in range(width + 1):
+                    if j < ncol + m or j == width: cost[j] -= T[i][j]
+        T.append(cost)
+        _simplex_min(T, basis, width, allowed)
+        if T[m][-1] != 0: return (False, None, None)
+        T.pop()
+        for j in range(ncol + m, width): allowed[j] = False
+        for i in range(m):                      # drive artificials out of the basis where possible
+            if basis[i] >= ncol + m:
+                for j in range(ncol + m):
+                    if T[i][j] != 0:
+                        pv = T[i][j]; T[i] = [x / pv for x in T[i]]
+                        for i2 in range(m):
+                            if i2 != i and T[i2][j] != 0:
+                                f = T[i2][j]; T[i2] = [x - f * y for x, y in zip(T[i2], T[i])]
+                        basis[i] = j; break
     if obj is None: return (True, -INF, INF)
-    oc, o0 = obj
     res = []
-    for sgn in (1.0, -1.0):                  # min, then max
-        T2 = [list(r) for r in T[:m]]; b2 = list(basis)
-        c = [0.0] * (ncols + 1)
-        for v, cv in oc.items():
-            if v not in idx: raise Undecided('LP residual variables')
-            c[idx[v]] += sgn * cv; c[n + idx[v]] -= sgn * cv
-        for i in range(m):                   # price out the basic columns
+    kind, jz = cols[ZV]
+    for sgn in (1, -1):                         # min z, then max z
+        T2 = [list(r) for r in T]; b2 = list(basis)
+        c = [Fr(0)] * (width + 1); off = Fr(0)
+        if kind == 'lo': c[jz] = Fr(sgn); off = L[ZV]
+        elif kind == 'up': c[jz] = Fr(-sgn); off = U[ZV]
+        else: c[jz] = Fr(sgn); c[jz + 1] = Fr(-sgn)
+        for i in range(m):                      # price out the basic columns
             f = c[b2[i]]
-            if f != 0.0: c = [x - f * y for x, y in zip(c, T2[i])]
+            if f: c = [x - f * y for x, y in zip(c, T2[i])]
         T2.append(c)
-        st = _simplex_min(T2, b2, ncols, allowed)
-        res.append(-INF if st == 'unbounded' else -T2[m][-1])
-    lo = res[0] + o0 if res[0] > -INF else -INF
-    hi = -res[1] + o0 if res[1] > -INF else INF
+        st = _simplex_min(T2, b2, width, allowed)
+        res.append(None if st == 'unbounded' else sgn * (-T2[m][-1]) + off)
+    lo = float(res[0]) if res[0] is not None else -INF
+    hi = float(res[1]) if res[1] is not None else INF
     return (True, lo, hi)
 
 
